@@ -1019,3 +1019,262 @@ def install_band(sess):
         pre, post, on_exc = make(nm)
         sess.wrap(EX, nm, "M-band", post, pre=pre, on_exc=on_exc)
         sess.wrap(EXP, nm, "M-band", post, pre=pre, on_exc=on_exc)
+
+
+# --------------------------------------------------------------------------------------
+# M-ipl: invert_pl_function (C17)
+
+
+def judge_ipl(sess, x, y, t, res, monitor="M-ipl"):
+    x = np.asarray(x, dtype=float)
+    y = np.asarray(y, dtype=float)
+    t_arr = np.asarray(t, dtype=float)
+    if x.ndim != 1 or y.shape != x.shape or len(x) < 1 or not np.all(np.isfinite(x)) or not np.all(np.isfinite(y)) or np.any(np.isnan(t_arr)) or t_arr.ndim > 1:
+        sess.skip(monitor, "malformed curve or target")
+        return
+    if np.any(np.diff(x) < 0) or np.any((np.diff(x) == 0) & (np.diff(y) != 0)):
+        sess.skip(monitor, "x decreasing or duplicate x with different y")
+        return
+    scalar = t_arr.ndim == 0
+    ts = [float(t_arr)] if scalar else t_arr.tolist()
+    if scalar:
+        if not sess.check(monitor, isinstance(res, np.ndarray), "scalar target must give a bare array", lambda: {"type": str(type(res))}, key="ipl-scalar"):
+            return
+        entries = [res]
+    else:
+        if not sess.check(monitor, isinstance(res, list) and len(res) == len(ts), "one entry per target expected",
+                          lambda: {"len_result": len(res) if hasattr(res, "__len__") else None, "len_targets": len(ts)}, key="ipl-len"):
+            return
+        entries = res
+    xl, yl = x.tolist(), y.tolist()
+    ymin, ymax = min(yl), max(yl)
+    scale = max(1.0, max(abs(v) for v in yl))
+    xs_scale = max(1.0, abs(xl[0]), abs(xl[-1]))
+    n = len(xl)
+    for tv, s in zip(ts, entries):
+        s = np.asarray(s, dtype=float).ravel()  # the no-solution fallback entry may be (1, 1)-shaped
+        has_sol = ymin <= tv <= ymax
+        sig = ("sol" if has_sol else "nosol", "n%d" % min(n, 6), "dupx" if np.any(np.diff(x) == 0) else "-")
+
+        def w(**kw):
+            d = {"x": xl, "y": yl, "t": tv, "result": s.tolist()}
+            d.update(kw)
+            return lambda: d
+
+        if not sess.check(monitor, len(s) >= 1, "empty solution array", w(), sig=sig, key="ipl-empty"):
+            continue
+        sess.check(monitor, bool(np.all(np.diff(s) > 0)), "solutions not strictly increasing", w(), sig=sig, key="ipl-increasing")
+        eps_x = 4 * np.spacing(xs_scale)
+        sess.check(monitor, s.min() >= xl[0] - eps_x and s.max() <= xl[-1] + eps_x, "solution outside the sampled range", w(), sig=sig, key="ipl-range")
+        if has_sol:
+            # every returned point solves f(s) = t
+            slope = max((abs(yl[j + 1] - yl[j]) / (xl[j + 1] - xl[j]) for j in range(n - 1) if xl[j + 1] > xl[j]), default=0.0)
+            tol = 1e-9 * scale + 8 * slope * np.spacing(xs_scale)
+            errs = [abs(R.pl_eval(xl, yl, float(v)) - tv) for v in s.tolist()]
+            sess.check(monitor, max(errs) <= tol, "a returned point does not solve f(s) = t", w(errors=errs, tol=tol), sig=sig, key="ipl-solves")
+            # every segment with a strict sign change contains a returned point
+            missing = None
+            for j in range(n - 1):
+                a, b = yl[j] - tv, yl[j + 1] - tv
+                if (a < 0 < b) or (a > 0 > b):
+                    if not np.any((s >= xl[j] - eps_x) & (s <= xl[j + 1] + eps_x)):
+                        missing = j
+                        break
+            sess.check(monitor, missing is None, "a strict crossing has no returned solution", w(segment=missing), sig=sig, key="ipl-complete")
+            # a crossing that passes exactly through a knot (y[j] == t with a sign change across it) is a solution at x[j]
+            missing_knot = None
+            for j in range(1, n - 1):
+                if yl[j] == tv and (yl[j - 1] - tv) * (yl[j + 1] - tv) < 0 and xl[j - 1] < xl[j] < xl[j + 1]:
+                    if not np.any(np.abs(s - xl[j]) <= eps_x):
+                        missing_knot = j
+                        break
+            sess.check(monitor, missing_knot is None, "a crossing through a knot has no returned solution", w(knot=missing_knot), sig=sig, key="ipl-complete-knot")
+        else:
+            ok = len(s) == 1
+            if ok:
+                best = min(abs(v - tv) for v in yl)
+                idx = [j for j in range(n) if xl[j] == s[0]]
+                ok = bool(idx) and any(abs(yl[j] - tv) == best for j in idx)
+            sess.check(monitor, ok, "no solution: result is not the single sample point closest to the target", w(), sig=sig, key="ipl-closest")
+
+
+def install_ipl(sess):
+    import sys
+
+    U = sys.modules["score_analysis.utils"]
+
+    def post(snap, args, kwargs, res):
+        a = dict(zip(["x", "y", "t"], args))
+        a.update(kwargs)
+        judge_ipl(sess, a["x"], a["y"], a["t"], res)
+
+    sess.wrap(U, "invert_pl_function", "M-ipl", post)
+
+
+# --------------------------------------------------------------------------------------
+# M-met: score_analysis.metrics.* and utils.binomial_ci (C04)
+
+COUNT_CELLS = {
+    "tp": ((0, 0),), "fn": ((0, 1),), "fp": ((1, 0),), "tn": ((1, 1),),
+    "p": ((0, 0), (0, 1)), "n": ((1, 0), (1, 1)), "top": ((0, 0), (1, 0)), "ton": ((0, 1), (1, 1)),
+}
+CI_OF = {"tpr_ci": "tpr", "tnr_ci": "tnr", "fpr_ci": "fpr", "fnr_ci": "fnr", "tar_ci": "tpr", "trr_ci": "tnr", "far_ci": "fpr", "frr_ci": "fnr"}
+
+
+def _binary_in_scope(m):
+    m = np.asarray(m)
+    return m.ndim >= 2 and m.shape[-2:] == (2, 2) and m.dtype.kind in "fiu" and bool(np.all(np.isfinite(m))) and bool(np.all(m >= 0)) and (m.size == 0 or float(m.max()) <= 1e13)
+
+
+def _cells(m, cells):
+    return sum(m[..., r, c] for r, c in cells)
+
+
+def install_met(sess):
+    import sys
+
+    M = sys.modules["score_analysis.metrics"]
+    U = sys.modules["score_analysis.utils"]
+
+    def make_rate(name):
+        num_c, den_c = R.RATE_CELLS[name]
+
+        def post(snap, args, kwargs, res):
+            m = np.asarray(args[0] if args else kwargs["matrix"])
+            if name in ("accuracy", "error_rate") and not (m.ndim >= 2 and m.shape[-1] == 2 and m.shape[-2] == 2):
+                sess.skip("M-met", "multiclass accuracy (C05)")
+                return
+            if not _binary_in_scope(m):
+                sess.skip("M-met", "matrix out of scope")
+                return
+            lead = m.shape[:-2]
+            num = _cells(m, num_c).astype(float)
+            den = _cells(m, den_c).astype(float)
+            val = np.asarray(res, dtype=float)
+            sig = (name, m.dtype.kind, "lead%d" % len(lead), "size0" if m.size == 0 else "-")
+            w = lambda: {"metric": name, "matrix": m, "result": val}  # noqa: E731
+            if not sess.check("M-met", val.shape == lead, "rate has the wrong shape", w, sig=sig, key="met-shape"):
+                return
+            isn = np.isnan(val)
+            sess.check("M-met", np.array_equal(isn, den == 0), "rate is NaN not exactly where its denominator is zero", w, sig=sig, key="met-nan-locus")
+            ok = ~isn & (den != 0)
+            with np.errstate(all="ignore"):
+                exp = num[ok] / den[ok]
+            sess.check("M-met", bool(np.all(np.abs(val[ok] - exp) <= 1e-12 * np.maximum(1.0, np.abs(exp)))), "rate differs from numerator/denominator of its definition", w, sig=sig, key="met-value")
+            sess.check("M-met", bool(np.all((val[ok] >= 0) & (val[ok] <= 1))), "rate outside [0,1]", w, sig=sig, key="met-range")
+
+        return post
+
+    def make_count(name):
+        cells = COUNT_CELLS[name]
+
+        def post(snap, args, kwargs, res):
+            m = np.asarray(args[0] if args else kwargs["matrix"])
+            if not _binary_in_scope(m):
+                sess.skip("M-met", "matrix out of scope")
+                return
+            exp = _cells(m, cells)
+            sess.check("M-met", np.shape(res) == m.shape[:-2] and np.array_equal(np.asarray(res), exp), "count differs from the sum of its cells",
+                       lambda: {"metric": name, "matrix": m, "result": np.asarray(res)}, sig=(name, m.dtype.kind), key="met-count")
+
+        return post
+
+    def make_ci(name):
+        rate = CI_OF[name]
+        num_c, den_c = R.RATE_CELLS[rate]
+
+        def post(snap, args, kwargs, res):
+            a = dict(zip(["matrix", "alpha"], args))
+            a.update(kwargs)
+            m = np.asarray(a["matrix"])
+            alpha = a.get("alpha", 0.05)
+            if not _binary_in_scope(m) or not isinstance(alpha, float) or not (0 < alpha < 1):
+                sess.skip("M-met", "matrix/alpha out of scope")
+                return
+            lead = m.shape[:-2]
+            ci = np.asarray(res, dtype=float)
+            sig = (name, m.dtype.kind, "lead%d" % len(lead))
+            w = lambda: {"metric": name, "matrix": m, "alpha": alpha, "result": ci}  # noqa: E731
+            if not sess.check("M-met", ci.shape == lead + (2,), "interval has the wrong shape", w, sig=sig, key="met-ci-shape"):
+                return
+            num = _cells(m, num_c).astype(float)
+            den = _cells(m, den_c).astype(float)
+            z = R.ppf(1 - alpha / 2)
+            with np.errstate(all="ignore"):
+                p = np.where(den != 0, num / np.where(den == 0, 1, den), np.nan)
+                hw = z * np.sqrt(p * (1 - p) / np.where(den == 0, 1, den))
+            ok = np.allclose(ci[..., 0], p - hw, rtol=1e-9, atol=1e-12, equal_nan=True) and np.allclose(ci[..., 1], p + hw, rtol=1e-9, atol=1e-12, equal_nan=True)
+            sess.check("M-met", ok, "interval is not rate -/+ z(alpha/2)*sqrt(p(1-p)/n)", w, sig=sig, key="met-ci-value")
+            sess.check("M-met", np.array_equal(np.isnan(ci[..., 0]), den == 0) and np.array_equal(np.isnan(ci[..., 1]), den == 0), "interval is NaN not exactly where the rate is", w, sig=sig, key="met-ci-nan")
+
+        return post
+
+    for name in R.RATE_CELLS:
+        if hasattr(M, name):
+            sess.wrap(M, name, "M-met", make_rate(name))
+    for name in COUNT_CELLS:
+        sess.wrap(M, name, "M-met", make_count(name))
+    for name in CI_OF:
+        sess.wrap(M, name, "M-met", make_ci(name))
+
+    def pop_post(snap, args, kwargs, res):
+        m = np.asarray(args[0] if args else kwargs["matrix"])
+        if m.ndim < 2 or m.dtype.kind not in "fiu":
+            return
+        sess.check("M-met", np.shape(res) == m.shape[:-2] and bool(np.allclose(np.asarray(res), m.sum(axis=-1).sum(axis=-1), rtol=1e-12, atol=0)), "pop is not the sum of all cells", lambda: {"matrix": m}, sig=("pop",), key="met-count")
+
+    sess.wrap(M, "pop", "M-met", pop_post)
+
+    def bin_post(snap, args, kwargs, res):
+        a = dict(zip(["count", "nobs", "alpha"], args))
+        a.update(kwargs)
+        count, nobs = np.asarray(a["count"], dtype=float), np.asarray(a["nobs"], dtype=float)
+        alpha = a.get("alpha", 0.05)
+        if not isinstance(alpha, float) or not (0 < alpha < 1) or np.any(~np.isfinite(count)) or np.any(~np.isfinite(nobs)) or np.any(count < 0) or np.any(count > nobs):
+            sess.skip("M-met", "binomial_ci out of scope")
+            return
+        z = R.ppf(1 - alpha / 2)
+        with np.errstate(all="ignore"):
+            p = np.where(nobs != 0, count / np.where(nobs == 0, 1, nobs), np.nan)
+            hw = z * np.sqrt(p * (1 - p) / np.where(nobs == 0, 1, nobs))
+        ci = np.asarray(res, dtype=float)
+        ok = ci.shape == count.shape + (2,) and np.allclose(ci[..., 0], p - hw, rtol=1e-9, atol=1e-12, equal_nan=True) and np.allclose(ci[..., 1], p + hw, rtol=1e-9, atol=1e-12, equal_nan=True)
+        sess.check("M-met", ok, "binomial_ci is not the normal-approximation interval", lambda: {"count": count, "nobs": nobs, "alpha": alpha, "result": ci}, sig=("binomial_ci",), key="met-binomial")
+
+    sess.wrap(U, "binomial_ci", "M-met", bin_post)
+    sess.wrap(M, "binomial_ci", "M-met", bin_post)  # name bound at import in metrics.py
+
+
+# --------------------------------------------------------------------------------------
+# M-cmx: ConfusionMatrix.one_vs_all (C05)
+
+
+def install_cmx(sess):
+    import sys
+
+    CM = sys.modules["score_analysis.cm"]
+
+    def post(snap, args, kwargs, res):
+        self = args[0]
+        M = np.asarray(self.matrix)
+        if M.ndim < 2 or M.shape[-1] != M.shape[-2] or M.dtype.kind not in "fiu" or not np.all(np.isfinite(M)) or np.any(M < 0):
+            sess.skip("M-cmx", "matrix out of scope")
+            return
+        K = M.shape[-1]
+        lead = M.shape[:-2]
+        ova = np.asarray(res.matrix)
+        sig = ("K%d" % K, M.dtype.kind, "lead%d" % len(lead))
+        w = lambda: {"matrix": M, "one_vs_all": ova}  # noqa: E731
+        if not sess.check("M-cmx", ova.shape == (*lead, K, 2, 2) and res.binary, "one_vs_all has the wrong shape or is not binary", w, sig=sig, key="ova-shape"):
+            return
+        tot = M.sum(axis=-1).sum(axis=-1)
+        tol = dict(rtol=1e-12, atol=1e-9)
+        sess.check("M-cmx", bool(np.allclose(ova.sum(axis=-1).sum(axis=-1), tot[..., None], **tol)), "one-vs-all does not conserve the population", w, sig=sig, key="ova-conserve")
+        ok = True
+        for j in range(K):
+            ok = (ok and np.allclose(ova[..., j, 0, 0], M[..., j, j], **tol) and np.allclose(ova[..., j, 0, :].sum(-1), M[..., j, :].sum(-1), **tol)
+                  and np.allclose(ova[..., j, :, 0].sum(-1), M[..., :, j].sum(-1), **tol))
+        sess.check("M-cmx", bool(ok), "one-vs-all cells: TP is not the diagonal, P not the row sum or TOP not the column sum", w, sig=sig, key="ova-cells")
+        sess.check("M-cmx", bool(np.all(ova >= -1e-9)), "negative one-vs-all cell", w, sig=sig, key="ova-negative")
+
+    sess.wrap(CM.ConfusionMatrix, "one_vs_all", "M-cmx", post)
